@@ -276,6 +276,8 @@ Proof.
     + apply (inv_unchanged s); [reflexivity|reflexivity|same_q|apply pcof_same; reflexivity|exact I].
     + now apply Hchanpop.
   - (* CPopOver *)
+    destruct (if pop_overflow_rechecks_channel then chan s (q_ch Q) else []) as [|t0 r0] eqn:Hc0.
+    2:{ destruct pop_overflow_rechecks_channel; [|discriminate]. now apply Hchanpop. }
     destruct (q_over Q) as [|t r] eqn:Ho.
     + apply (inv_unchanged s); [reflexivity|reflexivity| |apply pcof_same; reflexivity|exact I].
       unfold overs; cbn. eapply flat_map_upd_same; eauto.
@@ -380,27 +382,20 @@ Proof.
   exists 2, [7; 7; 8], witness_cross. split; [lia|]. destruct witness_cross_ok as [A _]. exact A.
 Qed.
 
-(* second window (F14): the convoy polls the channel empty, two producers then fill the channel (capacity 1)
-   and spill into the overflow list, and the convoy pops the overflow list: task 2 overtakes task 1 *)
+(* second window (F14, repaired in /repo 0813a51): the convoy polls the channel empty, two producers then
+   fill the channel (capacity 1) and spill into the overflow list, and the convoy continues with
+   popOverflowTask.  Before the repair task 2 overtook task 1; the repaired popOverflowTask polls the channel
+   again under the lock, and the same schedule now runs task 1 first. *)
 Definition witness_overtake : list label :=
   [P 0; P 0; P 0; P 0; P 0; P 0; C 0; P 0; C 0; C 0;
    P 1; P 1; P 1; P 1; P 2; P 2; P 2; P 2;
    C 0].
 
-Lemma witness_overtake_ok :
+Lemma C13_overflow_overtake_fixed_proof :
   let s := run 1 [1; 1; 1] witness_overtake in
-  spec_safe (st_log s) = false /\ started_tasks (st_log s) = [0; 2] /\ accepted_tasks (st_log s) = [0; 1; 2]
-  /\ forallb (fun Q => negb (q_refs Q <? 0)%Z) (st_qs s) = true.
-Proof. vm_compute. repeat split. Qed.
-
-Lemma C13_overflow_overtake_refuted_proof :
-  exists cap keys sched, 0 < cap /\
-    let s := run cap keys sched in
-    spec_safe (st_log s) = false /\ forallb (fun Q => negb (q_refs Q <? 0)%Z) (st_qs s) = true.
-Proof.
-  exists 1, [1; 1; 1], witness_overtake. split; [lia|].
-  destruct witness_overtake_ok as (A & _ & _ & B). split; assumption.
-Qed.
+  spec_safe (st_log s) = true /\ started_tasks (st_log s) = [0; 1] /\ accepted_tasks (st_log s) = [0; 1; 2]
+  /\ (exists Q, nth_error (st_qs s) 0 = Some Q /\ q_over Q = [2]).
+Proof. vm_compute. repeat split. eexists; split; reflexivity. Qed.
 
 Lemma C13_full_is_false : ~ exactly_once_in_order_full.
 Proof.
